@@ -142,6 +142,11 @@ def extract_ops(ctx):
     tk = one("lockDuplicatedID", "recv", "closed", sops)
     if tk["select"]:
         bad("lockDuplicatedID waits for closed inside a select")
+    # lockDuplicatedID: a second mu.Lock() = the lock is given up and taken again when the stored session has no online client
+    relocks = [c for c in calls if c["file"] == "server.go" and c["func"] == "lockDuplicatedID" and c["callee"] == "mu.Lock"]
+    if not relocks:
+        bad("lockDuplicatedID does not lock srv.mu")
+    m["relock_window"] = len(relocks) > 1
     stop_ranges = [x["expr"] for x in tab.get("ranges", []) if x["file"] == "server.go" and x["func"] == "Stop"]
     expected = {"srv.tcpListener", "srv.websocketServer", "srv.clients", "chs", "srv.plugins"}
     m["stop_tracks_all"] = any(x not in expected for x in stop_ranges)
